@@ -170,6 +170,8 @@ ALL_AUTO_NAMES = [a.value for a in games.ALL_AUTOS]
 
 
 def check_C09(run: Run):
+    from . import mc
+    mc.mc_part(run, 'C09')
     rng = random.Random(run.seed * 31 + 9)
     q = run.tier == 'quick'
     pol = dict(probe_level=0, probe_every=0.0, illegal=0.05, noop=0.03)
@@ -216,6 +218,8 @@ def check_C09(run: Run):
 
 
 def check_C15(run: Run):
+    from . import mc
+    mc.mc_part(run, 'C15')
     rng = random.Random(run.seed * 31 + 15)
     q = run.tier == 'quick'
     pol = dict(probe_level=0, probe_every=0.0, illegal=0.05, noop=0.03, partial_show=0.15)
@@ -260,6 +264,8 @@ def check_C15(run: Run):
 
 
 def check_C12(run: Run):
+    from . import mc
+    mc.mc_part(run, 'C12')
     trace_part(run, 'C12')
     rng = random.Random(run.seed * 31 + 12)
     q = run.tier == 'quick'
